@@ -65,7 +65,7 @@ for (tn, tt, nd, sg, bits) in SHAPES + THOROUGH_SHAPES:
                       extra_flags=["--unsigned-overflow-check", "--conversion-check"], timeout=300))
 
 D0 = shape_defs("uint32_t", "nondet_u32", 0, 32)
-IQ_LIFT = lambda: {"body": Lift(BULK, r"void init_queue\(std::uint32_t const worker_thread, std::uint32_t const num_chunks\)", rules=[
+IQ_LIFT = lambda: {"body": Lift(BULK, r"(?:void|bool|auto) init_queue\(std::uint32_t const worker_thread, std::uint32_t const num_chunks\)", rules=[
     Sub(r"auto& queue = op_state->queues\[(\w+)\]\.data_;", r"struct ciq *queue = &QUEUE(self->op_state, \1);", 1),
     Call(r"queue\.reset", "ciq_reset(queue, {0}, {1})", 1),
     Members(["op_state"])], post=[Auto(2)])}
@@ -116,7 +116,7 @@ UNITS += [
              Sub(r"task_function task_f\{this->op_state,([^;]*)\};", r"struct task_fn task_f = { self->op_state,\1 };", 1),
              QUEUE_REF,
              Sub(r"\bqueue\.empty\(\)", "ciq_empty(queue)", 1),
-             Sub(r"\btask_f\.finish\(\);", "task_finish(&task_f);", 1),
+             Sub(r"\btask_f\.finish\(\);", "task_finish(&task_f);", None),   # any number: "exactly one finish or one spawn" is the contract
              Sub(r"auto hint = pika::execution::experimental::get_hint\(op_state->scheduler\);", "struct hint hint = get_hint(self->op_state);", 1),
              Sub(r"hint == pika::execution::thread_schedule_hint\(\)", "hint_eq(hint, hint_default())", 1),
              Call(r"hint = pika::execution::thread_schedule_hint", "hint = hint_make({0}, {1})", 1),
@@ -137,7 +137,10 @@ UNITS += [
              Call(r"r\.op_state->ts\.template emplace<[^;]*?>", "ts_emplace(r.op_state, {0})", 1),
              Sub(r"\br\.(init_queue|do_work_task|do_work_local)\(", r"\1(&r, ", 3),
              Sub(r"pika::get_local_worker_thread_num\(\)", "get_local_worker_thread_num()", 1),
-         ], post=[Auto(2)], loops={
+             # not in the pinned tree (tasks_remaining is set once, by the operation state's constructor): a store made here is
+             # checked against the number of finish() calls the workers will make
+             Call(r"\br\.op_state->tasks_remaining\.store", "tasks_remaining_store(r.op_state, {0})", None),
+         ], post=[Auto(None)], loops={
              1: "__CPROVER_assigns(worker_thread, g_inits, g_vw_init, g_arg_nc)\n__CPROVER_loop_invariant(worker_thread <= r.op_state->num_worker_threads && g_inits == (long) worker_thread && g_vw_init == (g_vw < worker_thread ? 1 : 0) && g_tasks == 0 && g_local == 0 && g_emplaced && (g_inits == 0 || g_arg_nc == num_chunks))\n__CPROVER_decreases(r.op_state->num_worker_threads - worker_thread)",
              2: "__CPROVER_assigns(worker_thread, g_tasks, g_vw_task)\n__CPROVER_loop_invariant(worker_thread <= r.op_state->num_worker_threads && g_local == 0 && g_inits == (long) r.op_state->num_worker_threads && g_tasks == (long) worker_thread - (g_local_worker < worker_thread ? 1 : 0) && g_vw_task == ((g_vw < worker_thread && g_vw != g_local_worker) ? 1 : 0))\n__CPROVER_decreases(r.op_state->num_worker_threads - worker_thread)",
              "count": 2})},
